@@ -14,6 +14,7 @@ import ast
 
 from ..cfg import known_falsy
 from ..model import self_attr, unparse, walk_body_shallow
+from .util import *  # noqa: F401,F403
 from .util import (at, stored_attrs, case_reach, aliases_of, call_edges, chains_in, call_name, call_recv, calls_in, need, node_assign_value, node_writes_attr,
                    norm, registrations, where)
 
@@ -28,7 +29,8 @@ EXPLANATION = (
     "the complement of `_stopping and failure.check(CancelledError)`. Scheduling sites are classified by the entry "
     "points that can reach them in the class call/registration graph."
 )
-SHARED = [('C03', ['R2'], 'the processor is not invoked again once stop() has begun')]
+SHARED = [('C03', ['R2'], 'the processor is not invoked again once stop() has begun'),
+          ('C14', ['R6'], 'a consumer started again after stop/shutdown runs with the configuration it was given')]
 ASSUMPTIONS = [
     "Twisted: cancel() of an unfired Deferred errbacks CancelledError through its chain synchronously",
     "IDelayedCall.cancel()/LoopingCall.stop() prevent further calls",
@@ -150,6 +152,8 @@ def stop_cancels(ctx, stop):
             if call_name(c) in ("cancel", "stop") and isinstance(c.func, ast.Attribute):
                 rv = c.func.value
                 a = self_attr(rv) or (local_src.get(rv.id) if isinstance(rv, ast.Name) else None)
+                if not a and isinstance(rv, ast.Call) and call_name(rv) in ("pop", "popleft") and isinstance(rv.func, ast.Attribute):
+                    a = self_attr(rv.func.value)  # self.<list>.pop().cancel(): an element of the handle list
                 if a:
                     out.setdefault(a, []).append((n, c))
     return out
@@ -179,7 +183,7 @@ def run(ctx):
         for n, c in hits:
             deps = cst.control_deps(n.id)
             def foreign(t):
-                e = t.stmt.test if t.kind == "test" else t.stmt.iter
+                e = at(ctx, stop, t.id, t.stmt.test if t.kind == "test" else t.stmt.iter)
                 own = "self." + a
                 return [c for c in chains_in(e) if c != "self" and not (c == own or c.startswith(own + "."))]
             other = sorted({norm(t.stmt.test if t.kind == "test" else t.stmt.iter) for t, lab in deps if foreign(t)})
@@ -657,6 +661,13 @@ def run(ctx):
 
 
 MUTANTS = [
+    {"id": "shutdown-waits-for-success-only", "file": "consumer.py",
+     "old": "                failure.value.deferred.addBoth(_commit_and_stop)", "new": "                failure.value.deferred.addCallback(_commit_and_stop)",
+     "expect": "C13.R5", "note": "finding F27"},
+    {"id": "shutdown-success-reenters-stop", "file": "consumer.py",
+     "old": "            if not self._stopping:  # stop() itself may have cancelled the processor\n                self.stop()",
+     "new": "            self.stop()", "expect": "C13.R5", "note": "finding F28"},
+
     {"id": "stop-forgets-retry-call", "file": "consumer.py",
      "old": "        if self._retry_call:\n            self._retry_call.cancel()\n", "new": "", "expect": "C13.R1"},
     {"id": "stop-forgets-commit-req", "file": "consumer.py",
